@@ -9,6 +9,10 @@ COMMON_ASSUMPTIONS = [
 
 HEADROOM = "machine arithmetic is not treated as mathematical: overflow side conditions are explicit preconditions (`headroom`): fewer than 2^24 indices ever allocated and fewer than 2^31-4 reuses of one index"
 
+STORAGE_ASSUME = ["the storage layer is proved against the trait-level contract of UnprotectedStorage<T> for an ARBITRARY implementor; that each built-in kind satisfies the contract is the bounded Kani part (C04 kinds), listed separately and never counted as proved",
+                  "N8: D is instantiated at &MaskedStorage / &mut MaskedStorage (the Fetch/FetchMut aliases), AccessMut<'a> at &'a mut T (so `.access_mut()` is the identity reborrow)",
+                  "N13/N14: cfg!(panic = \"abort\") covered for both values; the nested unwinding guard of not_present_insert is hoisted and its Drop body left external (unwinding is outside this family); mem::forget ends the guard's borrow (axiom_guard_resolved)"]
+
 PROPS = {
     'C01': dict(units=['world'], witness='alloc',
                 assumptions=[HEADROOM, "handles passed to deletion functions were returned by a creation path of the same world (`legit`)"]),
@@ -16,6 +20,9 @@ PROPS = {
                 assumptions=[HEADROOM, "handles passed in were returned by a creation path of the same world (`legit`); Rust runs Drop::drop once for an unbuilt builder"]),
     'C17': dict(units=['world'], witness='alloc',
                 assumptions=[HEADROOM]),
+    'C03': dict(units=['storage'], witness=None, assumptions=[HEADROOM] + STORAGE_ASSUME),
+    'C04': dict(units=['storage'], witness=None, assumptions=[HEADROOM] + STORAGE_ASSUME),
+    'C13': dict(units=['storage'], witness=None, assumptions=[HEADROOM] + STORAGE_ASSUME + ["parallel / SharedGetOnly variants are not covered (N3)", "join-membership of restricted storages is part of C06's join unit"]),
     'C05': dict(units=['world'], witness='alloc',
                 assumptions=[HEADROOM, "WorldExt::delete_components is an ASSUMED contract (its body iterates shred's MetaTable<dyn AnyStorage>): it removes exactly the given indices from every listed storage and touches nothing else",
                              "World accessors (entities_mut, write_resource) are stubs with the documented shred behaviour; LazyUpdate::maintain is unconstrained"]),
@@ -24,6 +31,18 @@ PROPS = {
 TB = "Trusted: prelude stubs for hibitset / NonZeroI32 / atomics / Vec::extend (assumed contracts), N3 sequentialisation, headroom preconditions, Verus+Z3, the vx extractor's closed list of normalisations (each application recorded in the evidence)."
 
 MANIFEST_TEXT = {
+    'C03': dict(
+        level="Unbounded proof per access path: every handle-taking function (Storage::{get,contains,get_mut,insert,remove,entry}, both get_mut_or_default impls, restricted get_other/get_other_mut) is verified, for an arbitrary storage kind, to return nothing / refuse and to leave the whole map and the event log unchanged whenever EntitiesRes::is_alive(handle) is false; is_alive itself is proved equal to 'current' in unit alloc, and the trace lemmas show a dead handle never becomes current again, reused index or not.",
+        design_ref='DESIGN.md §5 C03', note=TB + ' Trait-level storage contract.',
+        technique='Verus postconditions (whole-view frame) on each extracted access path, against a trait-level storage contract'),
+    'C04': dict(
+        level="Layer: unbounded proof that MaskedStorage/Storage/entry/drain/get_mut_or_default behave as Map<Index,T> operations (exact return values, exact new map, invariant mask == set of stored indices, raw accessors only called with their precondition) for ANY implementor of the trait-level contract. Kinds: that Vec/DenseVec/DefaultVec/Null storages satisfy the contract is checked by Kani on the real unsafe code with small bounds (labelled bounded, not counted as proved).",
+        design_ref='DESIGN.md §5 C04', note=TB + ' Kind conformance is bounded (Kani), BTree/HashMap kinds assumed from std map semantics.',
+        technique='Verus contracts on the generic layer against a trait-level contract; bounded Kani conformance harnesses for the unsafe kinds'),
+    'C13': dict(
+        level="Unbounded proof for the sequential paired items: get = val(index), get_mut touches exactly its own index (whole-view frame), get_other/get_other_mut follow the mask-and-alive rule, and only get_mut / a successful get_other_mut carry the mutable-access effect of the underlying storage. Parallel variants are outside (no threads).",
+        design_ref='DESIGN.md §5 C13', note=TB,
+        technique='Verus contracts on extracted restrict.rs accessors against the trait-level storage contract'),
     'C05': dict(
         level="Unbounded proof of the call-site obligations: delete_entities hands delete_components exactly the killed prefix on both paths (the #766 shape), delete_entity likewise, maintain purges exactly the handles merge() returned (whenever there are any), and lemmas show the invariant 'no listed storage holds a component at an unoccupied index' is preserved, so a (re)used index starts empty. The walk over the storage table itself (delete_components: trait objects in shred's MetaTable) is an assumed contract; AnyStorage::drop for MaskedStorage is proved in unit storage.",
         design_ref='DESIGN.md §5 C05', note=TB + ' delete_components/MetaTable iteration assumed.',
